@@ -51,6 +51,26 @@ def mkCfg (rootDir : Bytes) (basev : Option Bytes × Bool) (tbl : List (Bytes ×
       | none => p
       | some b => if basev.2 then expandUserdirsFx (expanduser tbl) b p else expandUserdirs (expanduser tbl) b p }
 
+/-- `s<tid>:<hex>+<hex>` (`-` = no roots) | `t<tid>` | `o<tid>:<hex>` -/
+def parseJOp (s : String) : Option JOp :=
+  match s.toList with
+  | 's' :: rest =>
+    match (String.ofList rest).splitOn ":" with
+    | [t, roots] =>
+      match t.toNat?, (if roots == "-" then some [] else (roots.splitOn "+").mapM fromHex) with
+      | some t, some r => some (.setup t r)
+      | _, _ => none
+    | _ => none
+  | 't' :: rest => (String.ofList rest).toNat?.map .teardown
+  | 'o' :: rest =>
+    match (String.ofList rest).splitOn ":" with
+    | [t, url] =>
+      match t.toNat?, fromHex url with
+      | some t, some u => some (.open_ t u)
+      | _, _ => none
+    | _ => none
+  | _ => none
+
 def handle : List String → String
   | ["jp", p] => match fromHex p with
     | some p => showR (joinpathRoot p)
@@ -119,6 +139,16 @@ def handle : List String → String
       else match (splitList allowed).mapM fromHex with
         | some l => showBool (jailAllows (some l) url)
         | none => "bad-op"
+  | ["jtrace", variant, ops] =>
+    match (ops.splitOn ";").mapM parseJOp with
+    | none => "bad-op"
+    | some l =>
+      let show_ (r : List (Tid × Bool)) : String :=
+        if r.isEmpty then "-" else ",".intercalate (r.map fun (t, b) => toString t ++ showBool b)
+      match variant with
+      | "tl" => show_ (runTL JailTL.init l)
+      | "sh" => show_ (runShared none l)
+      | _ => "bad-op"
   | _ => "bad-op"
 
 end BreezyVerif.C31
